@@ -84,6 +84,7 @@ func runC02(c *Config, r *Report) {
 	x.r2x19()
 	x.r2x20()
 	x.r2x21()
+	x.r2x22()
 	x.r2x15()
 	if icS, err := loadInterp(c, true); err == nil {
 		noProcessWideMemo(icS, r, "R02.14")
